@@ -1,4 +1,4 @@
-// c09: PromQL selectors, aggregations (sum/min/max/avg/count, by/without) and vector arithmetic
+// c09: PromQL selectors, aggregations (sum/min/max/avg/count, by/without; nested: aggregation of an aggregation) and vector arithmetic
 // through the real parser (ConvertPromQLToMetricsQuery) and the real metrics query engine
 // (ExecuteMetricsQuery / ExecuteMultipleMetricsQuery) on generated label sets, with open,
 // rotated and two-segment data.
@@ -29,7 +29,7 @@ type matcher struct {
 	V  string `json:"v"`
 }
 type qspec struct {
-	Kind string    `json:"kind"` // sel | agg | arith
+	Kind string    `json:"kind"` // sel | agg | arith | nest
 	Fn   string    `json:"fn,omitempty"`
 	Grp  string    `json:"grp,omitempty"` // "" | by | without
 	GL   []string  `json:"gl,omitempty"`
@@ -38,6 +38,11 @@ type qspec struct {
 	Op   string    `json:"op,omitempty"`
 	L    *qspec    `json:"l,omitempty"`
 	R    *qspec    `json:"r,omitempty"`
+	// nested aggregation  Fn Grp (GL) ( In ) : Fn/Grp/GL describe the OUTER aggregation, In the inner one (kind agg);
+	// InQ-1 = index of the inner aggregation asked on its own in the same run (0: not asked)
+	In  *qspec `json:"in,omitempty"`
+	InQ int    `json:"inq,omitempty"`
+	Aux bool   `json:"aux,omitempty"` // inner aggregation asked on its own (full window only)
 	Fam  int       `json:"fam"`             // family id (same selector and grouping, all five functions), -1 = none
 	Kn   string    `json:"known,omitempty"` // known-defect class this query was generated for ("" = main stream)
 	// time range of the query: [t0+Lo, t0+Hi], both ends inclusive; Hi == 0 means the full window [0, window].
@@ -83,6 +88,11 @@ func (q qspec) promql() string {
 			return fmt.Sprintf("%s(%s)", q.Fn, q.selector())
 		}
 		return fmt.Sprintf("%s %s (%s) (%s)", q.Fn, q.Grp, strings.Join(q.GL, ","), q.selector())
+	case "nest":
+		if q.Grp == "" {
+			return fmt.Sprintf("%s(%s)", q.Fn, q.In.promql())
+		}
+		return fmt.Sprintf("%s %s (%s) (%s)", q.Fn, q.Grp, strings.Join(q.GL, ","), q.In.promql())
 	default:
 		return q.L.promql() + " " + q.Op + " " + q.R.promql()
 	}
@@ -103,20 +113,28 @@ func coqMatchers(ms []matcher) string {
 	}
 	return vhlib.CoqList(it)
 }
+func (q qspec) coqFn() string {
+	return map[string]string{"sum": "ASum", "min": "AMin", "max": "AMax", "avg": "AAvg", "count": "ACount"}[q.Fn]
+}
+func (q qspec) coqGrouping() string {
+	if q.Grp == "by" {
+		return "(GBy " + coqStrList(q.GL) + ")"
+	} else if q.Grp == "without" {
+		return "(GWithout " + coqStrList(q.GL) + ")"
+	}
+	return "GNone"
+}
 func (q qspec) coqQuery() string {
 	if q.Kind == "sel" {
 		return fmt.Sprintf("(QSel %s %s)", vhlib.CoqStr(q.Name), coqMatchers(q.Ms))
 	}
-	fn := map[string]string{"sum": "ASum", "min": "AMin", "max": "AMax", "avg": "AAvg", "count": "ACount"}[q.Fn]
-	g := "GNone"
-	if q.Grp == "by" {
-		g = "(GBy " + coqStrList(q.GL) + ")"
-	} else if q.Grp == "without" {
-		g = "(GWithout " + coqStrList(q.GL) + ")"
-	}
-	return fmt.Sprintf("(QAgg %s %s %s %s)", fn, g, vhlib.CoqStr(q.Name), coqMatchers(q.Ms))
+	return fmt.Sprintf("(QAgg %s %s %s %s)", q.coqFn(), q.coqGrouping(), vhlib.CoqStr(q.Name), coqMatchers(q.Ms))
 }
 func (q qspec) coqCase() string {
+	if q.Kind == "nest" {
+		return fmt.Sprintf("CN (mk_nq %s %s %s %s %s %s)", q.coqFn(), q.coqGrouping(), q.In.coqFn(), q.In.coqGrouping(),
+			vhlib.CoqStr(q.In.Name), coqMatchers(q.In.Ms))
+	}
 	if q.Kind == "arith" {
 		op := map[string]string{"+": "BAdd", "-": "BSub", "*": "BMul"}[q.Op]
 		return fmt.Sprintf("CA %s %s %s", op, q.L.coqQuery(), q.R.coqQuery())
@@ -230,6 +248,94 @@ func fold(fn string, vs []float64) float64 {
 	return r
 }
 
+// one instant-vector series: label set (absent = not in the map) and samples
+type lser struct {
+	ls  map[string]string
+	pts map[uint32]float64
+}
+
+// PromQL aggregation operator applied to a vector: per output group (by: the named labels the series carries;
+// without: every label but the named ones; no clause: one group) and timestamp, the aggregate of the member
+// series' samples at that timestamp
+func aggLayer(fn, grp string, gl []string, in []lser) []lser {
+	type group struct {
+		ls   map[string]string
+		vals map[uint32][]float64
+	}
+	groups := map[string]*group{}
+	var order []string
+	for _, s := range in {
+		g := map[string]string{}
+		switch grp {
+		case "by":
+			for _, k := range gl {
+				if v := s.ls[k]; v != "" {
+					g[k] = v
+				}
+			}
+		case "without":
+			for k, v := range s.ls {
+				g[k] = v
+			}
+			for _, k := range gl {
+				delete(g, k)
+			}
+		}
+		key := canonLabels("", g)
+		if groups[key] == nil {
+			groups[key] = &group{ls: g, vals: map[uint32][]float64{}}
+			order = append(order, key)
+		}
+		for t, v := range s.pts {
+			groups[key].vals[t] = append(groups[key].vals[t], v)
+		}
+	}
+	var out []lser
+	for _, key := range order {
+		g := groups[key]
+		if len(g.vals) == 0 {
+			continue
+		}
+		o := lser{ls: g.ls, pts: map[uint32]float64{}}
+		for t, vs := range g.vals {
+			o.pts[t] = fold(fn, vs)
+		}
+		out = append(out, o)
+	}
+	return out
+}
+
+func answerOf(v []lser) answer {
+	out := answer{}
+	for _, s := range v {
+		if len(s.pts) > 0 {
+			out[canonLabels("", s.ls)] = s.pts
+		}
+	}
+	return out
+}
+
+// the observed answer of a query as a vector (the raw ids are parsed back into label sets)
+func vectorOfObs(o qobs) ([]lser, bool) {
+	var out []lser
+	var ids []string
+	for id := range o.Res {
+		ids = append(ids, id)
+	}
+	sort.Strings(ids)
+	for _, id := range ids {
+		if len(o.Res[id]) == 0 {
+			continue
+		}
+		_, ls, ok := parseID(id)
+		if !ok {
+			return nil, false
+		}
+		out = append(out, lser{ls: ls, pts: o.Res[id]})
+	}
+	return out, true
+}
+
 // withName: selectors keep the metric name; aggregations and arithmetic drop it
 func expect(q qspec, d dataset, maxPhase int) answer {
 	lo, hi := q.win()
@@ -282,6 +388,15 @@ func expectIn(q qspec, d dataset, maxPhase, lo, hi int) answer {
 				out[key][t] = fold(q.Fn, vs)
 			}
 		}
+	case "nest":
+		// nesting = the outer aggregation applied to the inner aggregation's result vector
+		var in []lser
+		for _, i := range selected(*q.In, d) {
+			if ps := pointsOf(d, i, maxPhase, lo, hi); len(ps) > 0 {
+				in = append(in, lser{ls: labelMap(d.Series[i]), pts: ps})
+			}
+		}
+		return answerOf(aggLayer(q.Fn, q.Grp, q.GL, aggLayer(q.In.Fn, q.In.Grp, q.In.GL, in)))
 	case "arith":
 		l, r := expectIn(*q.L, d, maxPhase, lo, hi), expectIn(*q.R, d, maxPhase, lo, hi)
 		strip := func(a answer) answer {
@@ -332,8 +447,8 @@ func parseID(id string) (string, map[string]string, bool) {
 			if j < 0 {
 				return name, ls, false
 			}
-			if _, dup := ls[kv[:j]]; dup {
-				return name, ls, false
+			if old, dup := ls[kv[:j]]; dup && old != kv[j+1:] {
+				return name, ls, false // one label with two values; the same pair twice is one label (by (a, a))
 			}
 			ls[kv[:j]] = kv[j+1:]
 		}
@@ -662,6 +777,19 @@ func genMain(r *vhlib.Rng, arith bool) (dataset, []qspec) {
 			qs = append(qs, qspec{Kind: "agg", Fn: fn, Grp: grp, GL: gl, Name: m.name, Ms: ms, Fam: fam})
 		}
 	}
+	// nested aggregations: families (one inner aggregation and outer clause, all five outer functions) and singles
+	nNestFam, nNestSingle := 1, 3
+	if arith {
+		nNestFam, nNestSingle = 0, 2
+	}
+	nr := r.Fork()
+	for i := 0; i < nNestFam+nNestSingle; i++ {
+		fam := -1
+		if i < nNestFam {
+			fam = 10 + i
+		}
+		qs = appendNested(qs, genNested(nr, vhlib.Pick(nr, mi), fam))
+	}
 	if arith {
 		for i := 0; i < 4; i++ {
 			l := qspec{Kind: "sel", Name: mi[0].name, Fam: -1}
@@ -682,6 +810,146 @@ func genMain(r *vhlib.Rng, arith bool) (dataset, []qspec) {
 		qs[i].Full = -1
 	}
 	return d, addWindows(r.Fork(), d, qs)
+}
+
+// ---------- nested aggregations ----------
+// fn2 g2 (fn1 g1 (selector)): the clauses of the two layers name the same labels, nested (outer within inner),
+// overlapping or disjoint label lists, by and without in every combination, over selectors with and
+// without matchers.  Every label is carried by every series of the metric (absent labels are the known
+// class agg_by_absent_label) and no label of the metric ends with a by-label (agg_group_key_substring).
+func genNested(r *vhlib.Rng, m metricInfo, fam int) []qspec {
+	var ms []matcher
+	if r.Chance(40) {
+		ms = genMatchers(r, m.keys, 1)
+	}
+	list := func(pool []string, lo, hi int) []string {
+		gl := subset(r, pool, r.Range(lo, hi))
+		if r.Bool() {
+			for i, j := 0, len(gl)-1; i < j; i, j = i+1, j-1 {
+				gl[i], gl[j] = gl[j], gl[i]
+			}
+		}
+		if r.Chance(10) { // a label written twice in one clause: by (a, b, a)
+			gl = append(gl, vhlib.Pick(r, gl))
+		}
+		return gl
+	}
+	var g1, g2 string
+	var l1, l2 []string
+	ok := false
+	for tries := 0; tries < 40 && !ok; tries++ {
+		g1, l1, g2, l2 = "", nil, "", nil
+		switch r.Intn(7) {
+		case 0:
+		case 5, 6:
+			if len(m.keys) > 1 {
+				g1, l1 = "without", list(m.keys, 1, len(m.keys)-1)
+			}
+		default:
+			g1, l1 = "by", list(m.keys, 1, len(m.keys))
+		}
+		switch r.Intn(11) {
+		case 0:
+		case 1: // the same labels again
+			if g1 == "by" {
+				g2, l2 = "by", append([]string{}, l1...)
+			}
+		case 2, 3: // some of the inner clause's labels again
+			if len(l1) > 1 {
+				g2, l2 = "by", list(l1, 1, len(l1)-1)
+			} else if len(l1) == 1 {
+				g2, l2 = "by", append([]string{}, l1...)
+			}
+		case 4, 7: // any labels of the metric
+			g2, l2 = "by", list(m.keys, 1, len(m.keys))
+		case 5, 8: // labels the inner clause does not name
+			var rest []string
+			for _, k := range m.keys {
+				in := false
+				for _, x := range l1 {
+					in = in || x == k
+				}
+				if !in {
+					rest = append(rest, k)
+				}
+			}
+			if len(rest) > 0 {
+				g2, l2 = "by", list(rest, 1, len(rest))
+			}
+		case 6, 9, 10:
+			g2, l2 = "without", list(m.keys, 1, len(m.keys))
+		}
+		ok = (g1 != "by" || substrOK(m.keys, l1)) && (g2 != "by" || substrOK(m.keys, l2))
+	}
+	if !ok {
+		g1, l1, g2, l2 = "", nil, "", nil
+	}
+	inner := qspec{Kind: "agg", Fn: vhlib.Pick(r, fns), Grp: g1, GL: l1, Name: m.name, Ms: ms, Fam: -1}
+	var out []qspec
+	if fam >= 0 {
+		for _, fn := range fns {
+			in := inner
+			out = append(out, qspec{Kind: "nest", Fn: fn, Grp: g2, GL: l2, In: &in, Fam: fam})
+		}
+	} else {
+		in := inner
+		out = append(out, qspec{Kind: "nest", Fn: vhlib.Pick(r, fns), Grp: g2, GL: l2, In: &in, Fam: -1})
+	}
+	return out
+}
+
+// the inner aggregation of every nested query is also asked on its own (once), so that the nested answer can
+// be compared with the outer aggregation of the implementation's own inner answer
+func appendNested(qs []qspec, nested []qspec) []qspec {
+	for _, q := range nested {
+		idx := -1
+		for i := range qs {
+			if qs[i].Kind == "agg" && qs[i].Kn == "" && qs[i].promql() == q.In.promql() {
+				idx = i
+				break
+			}
+		}
+		if idx < 0 {
+			alone := *q.In
+			alone.Aux = true
+			qs = append(qs, alone)
+			idx = len(qs) - 1
+		}
+		q.InQ = idx + 1
+		qs = append(qs, q)
+	}
+	return qs
+}
+
+// how the label lists of the two clauses relate
+func nestRelation(q qspec) string {
+	if len(q.GL) == 0 || len(q.In.GL) == 0 {
+		return "one_clause_without_labels"
+	}
+	set := func(l []string) map[string]bool {
+		m := map[string]bool{}
+		for _, x := range l {
+			m[x] = true
+		}
+		return m
+	}
+	o, in := set(q.GL), set(q.In.GL)
+	common := 0
+	for a := range o {
+		if in[a] {
+			common++
+		}
+	}
+	switch {
+	case common == 0:
+		return "disjoint"
+	case common == len(o) && common == len(in):
+		return "same_labels"
+	case common == len(o):
+		return "outer_within_inner"
+	default:
+		return "overlapping"
+	}
 }
 
 // ---------- query time ranges ----------
@@ -736,6 +1004,8 @@ func addWindows(r *vhlib.Rng, d dataset, qs []qspec) []qspec {
 		q := qs[i]
 		var wi int
 		switch {
+		case q.Aux:
+			wi = 2
 		case q.Kind == "sel" && len(q.Ms) == 0:
 			wi = i % 2
 		case q.Fam >= 0:
@@ -1063,6 +1333,29 @@ func main() {
 				if q.Kind == "agg" {
 					kind = "agg/" + q.Fn + "/" + map[string]string{"": "none", "by": "by", "without": "without"}[q.Grp]
 				}
+				if q.Kind == "nest" {
+					gname := map[string]string{"": "none", "by": "by", "without": "without"}
+					kind = "nest/" + gname[q.Grp] + "_over_" + gname[q.In.Grp]
+					sum.Count("nest_labels/" + nestRelation(q))
+					if q.Grp != q.In.Grp && q.Grp != "" && q.In.Grp != "" {
+						sum.Count("nest_labels/by_and_without_mixed")
+					}
+					for _, l := range [][]string{q.GL, q.In.GL} {
+						seen := map[string]bool{}
+						for _, x := range l {
+							if seen[x] {
+								sum.Count("nest_labels/label_twice_in_one_clause")
+							}
+							seen[x] = true
+						}
+					}
+					sum.Count("nest_functions/" + q.Fn + "_of_" + q.In.Fn)
+					if len(q.In.Ms) == 0 {
+						sum.Count("nest_selector/no_matcher")
+					} else {
+						sum.Count("nest_selector/with_matcher")
+					}
+				}
 				sum.Count("query/" + kind)
 				if q.narrow() {
 					sum.Count("range/narrow")
@@ -1084,13 +1377,13 @@ func main() {
 					}
 					sum.Fail(cls, fmt.Sprintf("%s at stage %s: %s", q.show(), st.name, detail), caseOf(qi, st.name))
 				}
-				pre := map[string]string{"sel": "selector", "agg": "agg", "arith": "arith"}[q.Kind]
+				pre := map[string]string{"sel": "selector", "agg": "agg", "arith": "arith", "nest": "nested_agg"}[q.Kind]
 				if len(o.Errs) > 0 {
 					fail(pre+"_query_error", strings.Join(o.Errs, "; "))
 					continue
 				}
 				if len(probs) > 0 {
-					fail(map[string]string{"sel": "selector_wrong_series", "agg": "agg_wrong_groups", "arith": "arith_wrong_series"}[q.Kind], strings.Join(probs, "; "))
+					fail(map[string]string{"sel": "selector_wrong_series", "agg": "agg_wrong_groups", "arith": "arith_wrong_series", "nest": "nested_agg_wrong_groups"}[q.Kind], strings.Join(probs, "; "))
 					continue
 				}
 				// the time range: no reported sample lies outside it ...
@@ -1105,11 +1398,30 @@ func main() {
 							showAnswer(full, j.d.T0), showAnswer(got, j.d.T0)))
 					}
 				}
+				// nesting = the outer aggregation applied to the inner aggregation's answer: the implementation's own answer
+				// to the inner query (same stage, same time range), aggregated by the PromQL outer clause, is the nested answer
+				if q.Kind == "nest" && q.InQ > 0 && q.Kn == "" {
+					iq := j.qs[q.InQ-1]
+					ilo, ihi := iq.win()
+					lo, hi := q.win()
+					if io := st.obs.Q[q.InQ-1]; ilo == lo && ihi == hi && len(io.Errs) == 0 {
+						if vec, ok := vectorOfObs(io); ok {
+							if outer := answerOf(aggLayer(q.Fn, q.Grp, q.GL, vec)); !sameAnswer(outer, got) {
+								clause := q.Fn
+								if q.Grp != "" {
+									clause += " " + q.Grp + " (" + strings.Join(q.GL, ",") + ")"
+								}
+								fail("nested_ne_outer_of_inner_answer", fmt.Sprintf("%s alone returns %s; the PromQL %s of that vector is %s; the nested query returned %s",
+									iq.promql(), showAnswer(answerOf(vec), j.d.T0), clause, showAnswer(outer, j.d.T0), showAnswer(got, j.d.T0)))
+							}
+						}
+					}
+				}
 				if !sameKeys(want, got) {
-					fail(map[string]string{"sel": "selector_wrong_series", "agg": "agg_wrong_groups", "arith": "arith_wrong_series"}[q.Kind],
+					fail(map[string]string{"sel": "selector_wrong_series", "agg": "agg_wrong_groups", "arith": "arith_wrong_series", "nest": "nested_agg_wrong_groups"}[q.Kind],
 						fmt.Sprintf("PromQL answer %s, returned %s", showAnswer(want, j.d.T0), showAnswer(got, j.d.T0)))
 				} else if !sameAnswer(want, got) {
-					fail(map[string]string{"sel": "selector_wrong_samples", "agg": "agg_wrong_value", "arith": "arith_wrong_value"}[q.Kind],
+					fail(map[string]string{"sel": "selector_wrong_samples", "agg": "agg_wrong_value", "arith": "arith_wrong_value", "nest": "nested_agg_wrong_value"}[q.Kind],
 						fmt.Sprintf("PromQL answer %s, returned %s", showAnswer(want, j.d.T0), showAnswer(got, j.d.T0)))
 				}
 			}
@@ -1187,6 +1499,7 @@ func main() {
 	sum.Notes = append(sum.Notes,
 		"values are multiples of 60 and at most 6 series share a metric, so sums and averages are exact integers in binary64; results are compared exactly",
 		"all datapoints lie within a 300 s window (down-sampling step 1 s, one point per series and second)",
+		"nested aggregations fn2 g2 (fn1 g1 (selector)): one family (all five outer functions) and three single queries per dataset, clauses naming the same / nested / overlapping / disjoint labels or a label twice, by and without mixed, selectors with and without matchers; PromQL answer = outer aggregation of the inner aggregation's vector; also compared with the outer aggregation of the implementation's own answer to the inner query asked alone",
 		"time ranges: every query over the full window [t0, t0+300]; every plain selector and about half of the other queries a second time over a narrow range whose ends lie on / next to datapoint timestamps (datapoints before, inside and after the range, ingested in shuffled order)",
 		"model comparison: exact series-id byte strings (label order included) and exact sample values, for every stage (open, rotated, open+rotated, two rotated segments, unsplit)",
 		"case index = dataset*10000 + stage*1000 + query")
